@@ -131,7 +131,7 @@ class Node:
 
     @cost.setter
     def cost(self, cost: float) -> None:
-        if not isinstance(cost, (float, int, np.int32, np.int64)):
+        if not isinstance(cost, (float, int, np.floating, np.integer)):
             raise e.TypeError("`cost` should be a float or integer")
 
         self._cost = cost
